@@ -89,6 +89,7 @@ pub struct Report {
     inner: Mutex<Inner>,
     pub start: std::time::Instant,
     pub max_violations: usize,
+    pub max_per_group: u64,
     pub max_samples_per_family: usize,
 }
 
@@ -101,6 +102,7 @@ impl Report {
             inner: Mutex::new(Inner::default()),
             start: std::time::Instant::now(),
             max_violations: 1500,
+            max_per_group: 12,
             max_samples_per_family: 3,
         }
     }
@@ -154,7 +156,7 @@ impl Report {
         g.violation_count += 1;
         let n = g.violation_groups.entry(group).or_insert(0);
         *n += 1;
-        if *n <= 12 && g.violations.len() < self.max_violations {
+        if *n <= self.max_per_group && g.violations.len() < self.max_violations {
             g.violations.push(Violation { key, detail });
         }
     }
